@@ -12,6 +12,7 @@ import Driver.Dev
 import Driver.Lint
 import Driver.Diff
 import Driver.HclType
+import Driver.Plan
 open Lean
 
 def dispatch (j : Json) : Json :=
@@ -33,6 +34,7 @@ def dispatch (j : Json) : Json :=
   | "lint.analyze" => Driver.handleLintAnalyze j
   | "diff.schema" => Driver.handleDiffSchema j
   | "hcltype.convert" => Driver.handleHclTypeConvert j
+  | "plan.shape" => Driver.handlePlanShape j
   | "h1" => Json.mkObj [("h", Atlas.Base.h1 (Driver.unhex (Driver.str j "hex")))]
   | op => Json.mkObj [("err", s!"unknown-op:{op}")]
 
